@@ -63,7 +63,7 @@ def cases(draw):
     return mi
 
 
-OPTS = M.Opts(cr=True)
+OPTS = M.Opts(cr=True, anon_container=True)
 
 
 def has_mixed(spec):
